@@ -29,7 +29,7 @@ G = ["g2", "g1"]
 H = ["hd", "h b", "ha", "h[c]"]  # a level with a space and one with brackets
 K = [10, -2, 9]  # string order differs from numeric order
 YC = ["u", "w", "v"]
-VARIANTS = ["str", "cat-ord", "ord-cat", "unused", "num-dtypes", "big", "falsy", "small-ints", "tiny", "near-dup"]
+VARIANTS = ["str", "cat-ord", "ord-cat", "unused", "num-dtypes", "big", "falsy", "small-ints", "tiny", "near-dup", "long-numbers"]
 _FR = {}
 
 
@@ -95,6 +95,9 @@ def frame(n, variant, rot):
         df["h"] = [{"hd": " ha", "h b": "ha", "ha": "HA", "h[c]": "ha  "}[v] for v in df["h"]]
         for c_ in ("f", "g", "h"):
             order[c_] = sorted(set(df[c_]))
+    elif variant == "long-numbers":  # numeric levels with seven and more significant digits, integral floats, a negative one
+        df["k"] = [{10: 1234561, -2: 1234562, 9: -2}[v] for v in df["k"]]
+        order["k"] = sorted(set(df["k"]))
     elif variant == "small-ints":  # 8-bit integer columns whose products do not fit in 8 bits
         df["x"] = np.array([(37 * i + 5 * rot) % 120 - 20 for i in range(n)], dtype="int8")
         df["z"] = np.array([(11 * i + rot) % 50 + 3 for i in range(n)], dtype="int8")
